@@ -25,19 +25,26 @@
 (*    the life goes on), "rewind" restarts from such a copy;               *)
 (*  - move into the session: "up" with mode "movein" (no torrent is added  *)
 (*    by the client), "movereq" carries the bitfield the source sends,     *)
-(*    "absent" = the torrent never got a record (nothing is claimed).      *)
+(*    "absent" = the torrent never got a record (nothing is claimed);      *)
+(*  - re-add over an unloadable record: "damage" (the record cannot be     *)
+(*    loaded any more, the bucket stays), "up" with mode "readd" (the      *)
+(*    torrent is added again under the same ID: the record is new);        *)
+(*  - data files owned by another user: "chown" after "plant"; the client  *)
+(*    runs unprivileged; "allocfail" = it refused the file, otherwise the  *)
+(*    "open" event carries the O_SYNC flag of the handle it got.           *)
 (***************************************************************************)
 EXTENDS Resume, Json
 
-VARIABLES l, nosync, seen, rmiss, recr, vdone, obsw
-tvars == <<vars, l, nosync, seen, rmiss, recr, vdone, obsw>>
+VARIABLES l, seen, rmiss, recr, vdone, obsw
+tvars == <<vars, l, seen, rmiss, recr, vdone, obsw>>
 
 Trace == ndJsonDeserialize("trace.ndjson")
 Ev == Trace[l]
 SetOf(q) == {q[i] : i \in 1 .. Len(q)}
 Note(v) == IF v = "" THEN TRUE ELSE PrintT("@@VIOL " \o v \o " " \o ToString(l))
 
-CfgOf(e) == [np |-> e.np, nf |-> e.nf, fo |-> [p \in 0 .. (e.np - 1) |-> SetOf(e.fo[p + 1])], sync |-> TRUE, design |-> "observed", werr |-> "observed"]
+CfgOf(e) == [np |-> e.np, nf |-> e.nf, fo |-> [p \in 0 .. (e.np - 1) |-> SetOf(e.fo[p + 1])], sync |-> TRUE, design |-> "observed", werr |-> "observed",
+            env |-> TRUE, onforeign |-> "observed", readd |-> "observed"]
 ClassOf(e) == [p \in Piece |-> e.class[p + 1]]
 ExistOf(e) == [f \in File |-> e.exist[f + 1]]
 Val(k, b) == [known |-> k, bits |-> b]
@@ -45,17 +52,17 @@ GoodSet(d) == {p \in Piece : d[p] = "good"}
 
 TraceInit ==
     /\ l = 2 /\ Trace[1].ev = "init" /\ InitWith(CfgOf(Trace[1]))
-    /\ nosync = {} /\ seen = {} /\ rmiss = {} /\ recr = {} /\ vdone = FALSE /\ obsw = TRUE
+    /\ seen = {} /\ rmiss = {} /\ recr = {} /\ vdone = FALSE /\ obsw = TRUE
     /\ TLCSet(1, 1)
 
 TrReset ==
     /\ Ev.ev = "init" /\ ResetWith(CfgOf(Ev))
-    /\ nosync' = {} /\ seen' = {} /\ rmiss' = {} /\ recr' = {} /\ vdone' = FALSE /\ obsw' = TRUE /\ l' = l + 1
+    /\ seen' = {} /\ rmiss' = {} /\ recr' = {} /\ vdone' = FALSE /\ obsw' = TRUE /\ l' = l + 1
 
 \* a process life begins: the record is loaded (Restart of Resume)
 TrUp ==
-    /\ Ev.ev = "up" /\ Restart
-    /\ nosync' = {} /\ vdone' = FALSE /\ obsw' = Ev.wrap
+    /\ Ev.ev = "up" /\ Ev.mode # "readd" /\ Restart
+    /\ vdone' = FALSE /\ obsw' = Ev.wrap
     \* (a torrent that is moved in brings its files along: none of them counts as "missing at the start")
     /\ rmiss' = IF Ev.mode = "movein" THEN {} ELSE {f \in File : ~exist[f]}
     \* values a database update of this life may write before the first snapshot is seen: what was loaded, the
@@ -65,6 +72,40 @@ TrUp ==
                  \cup (IF Ev.fresh THEN {Val(FALSE, {})} ELSE {})
     /\ l' = l + 1 /\ UNCHANGED recr
 
+\* the session came up WITHOUT the torrent (its record is unloadable, the bucket is kept) and the torrent is added again
+\* under the same ID (ReAdd of Resume): the add writes a whole new record - no bitfield; what is found in the database
+\* after this life is judged against that (C05.db / C05.reopen.state at the crash, C05.ahead after the next start)
+TrReAdd ==
+    /\ Ev.ev = "up" /\ Ev.mode = "readd" /\ phase = "down" /\ ~recok
+    /\ recok' = TRUE /\ phase' = "alloc" /\ aidx' = 0 /\ almiss' = FALSE /\ alexist' = FALSE
+    /\ memKnown' = FALSE /\ memBit' = {} /\ nosync' = {} /\ dbKnown' = FALSE /\ dbBit' = {}
+    /\ vdone' = FALSE /\ obsw' = Ev.wrap
+    /\ rmiss' = {f \in File : ~exist[f]}
+    /\ seen' = {Val(FALSE, {}), Val(TRUE, {}), Val(TRUE, GoodSet(disk))}
+    /\ l' = l + 1
+    /\ UNCHANGED <<cfg, foreignf, disk, dirty, exist, wr, sec, wok, txn, recr>>
+
+\* the record of the torrent was made unloadable while the client was down (Damage of Resume)
+TrDamage ==
+    /\ Ev.ev = "damage" /\ phase = "down" /\ recok
+    /\ recok' = FALSE
+    /\ l' = l + 1
+    /\ UNCHANGED <<cfg, nosync, foreignf, disk, dirty, exist, phase, aidx, almiss, alexist, wr, sec, wok, memKnown, memBit, dbKnown, dbBit, txn, seen, rmiss, recr, vdone, obsw>>
+
+\* existing data files belong to another user (PlantForeign of Resume; content and existence come with "plant")
+TrChown ==
+    /\ Ev.ev = "chown" /\ phase = "down"
+    /\ foreignf' = {f \in SetOf(Ev.files) : exist[f]}
+    /\ l' = l + 1
+    /\ UNCHANGED <<cfg, nosync, recok, disk, dirty, exist, phase, aidx, almiss, alexist, wr, sec, wok, memKnown, memBit, dbKnown, dbBit, txn, seen, rmiss, recr, vdone, obsw>>
+
+\* the client refused a data file (allocation error, the torrent is stopped): AllocRefuse of Resume - nothing is claimed
+TrAllocFail ==
+    /\ Ev.ev = "allocfail" /\ Up
+    /\ phase' = "stopped"
+    /\ l' = l + 1
+    /\ UNCHANGED <<cfg, nosync, recok, foreignf, disk, dirty, exist, aidx, almiss, alexist, wr, sec, wok, memKnown, memBit, dbKnown, dbBit, txn, seen, rmiss, recr, vdone, obsw>>
+
 \* storage.Open returned (binding: the file existed iff the parent saw it on disk)
 TrOpen ==
     /\ Ev.ev = "open" /\ Ev.existed = exist[Ev.f]
@@ -72,13 +113,14 @@ TrOpen ==
     /\ almiss' = (almiss \/ ~Ev.existed) /\ alexist' = (alexist \/ Ev.existed)
     /\ nosync' = IF Ev.sync THEN nosync ELSE nosync \cup {Ev.f}
     /\ l' = l + 1
-    /\ UNCHANGED <<cfg, disk, dirty, phase, aidx, wr, sec, wok, memKnown, memBit, dbKnown, dbBit, txn, seen, rmiss, recr, vdone, obsw>>
+    /\ UNCHANGED <<cfg, recok, foreignf, disk, dirty, phase, aidx, wr, sec, wok, memKnown, memBit, dbKnown, dbBit, txn, seen, rmiss, recr, vdone, obsw>>
 
 \* open flags of a data file seen in /proc/self/fdinfo (default storage provider)
 TrOsync ==
     /\ Ev.ev = "osync"
     /\ nosync' = IF Ev.sync THEN nosync ELSE nosync \cup {Ev.f}
-    /\ l' = l + 1 /\ UNCHANGED <<vars, seen, rmiss, recr, vdone, obsw>>
+    /\ l' = l + 1
+    /\ UNCHANGED <<cfg, recok, foreignf, disk, dirty, exist, phase, aidx, almiss, alexist, wr, sec, wok, memKnown, memBit, dbKnown, dbBit, txn, seen, rmiss, recr, vdone, obsw>>
 
 SyncPiece(p) == cfg.fo[p] \cap nosync = {}
 
@@ -87,7 +129,7 @@ TrWBegin ==
     /\ wr' = [wr EXCEPT ![Ev.p] = "writing"] /\ UNCHANGED <<sec, wok>>
     /\ disk' = [disk EXCEPT ![Ev.p] = "partial"] /\ dirty' = dirty \ {Ev.p}
     /\ l' = l + 1
-    /\ UNCHANGED <<cfg, exist, phase, aidx, almiss, alexist, memKnown, memBit, dbKnown, dbBit, txn, nosync, seen, rmiss, recr, vdone, obsw>>
+    /\ UNCHANGED <<cfg, recok, foreignf, exist, phase, aidx, almiss, alexist, memKnown, memBit, dbKnown, dbBit, txn, nosync, seen, rmiss, recr, vdone, obsw>>
 
 \* @obligation C05.osync  a write that returned is durable only through an O_SYNC handle
 TrWEnd ==
@@ -97,7 +139,7 @@ TrWEnd ==
        ELSE IF Ev.ok THEN dirty' = dirty \cup {Ev.p} /\ UNCHANGED disk
        ELSE UNCHANGED <<disk, dirty>>
     /\ l' = l + 1
-    /\ UNCHANGED <<cfg, exist, phase, aidx, almiss, alexist, memKnown, memBit, dbKnown, dbBit, txn, nosync, seen, rmiss, recr, vdone, obsw>>
+    /\ UNCHANGED <<cfg, recok, foreignf, exist, phase, aidx, almiss, alexist, memKnown, memBit, dbKnown, dbBit, txn, nosync, seen, rmiss, recr, vdone, obsw>>
 
 \* loop snapshot: the in-memory bitfield changed
 TrMem ==
@@ -106,7 +148,7 @@ TrMem ==
     /\ wr' = [p \in Piece |-> IF p \in SetOf(Ev.have) /\ wr[p] = "written" THEN "idle" ELSE wr[p]] /\ UNCHANGED <<sec, wok>>
     /\ seen' = seen \cup {Val(Ev.known, SetOf(Ev.have))}
     /\ l' = l + 1
-    /\ UNCHANGED <<cfg, disk, dirty, exist, phase, aidx, almiss, alexist, dbKnown, dbBit, txn, nosync, rmiss, recr, vdone, obsw>>
+    /\ UNCHANGED <<cfg, recok, foreignf, disk, dirty, exist, phase, aidx, almiss, alexist, dbKnown, dbBit, txn, nosync, rmiss, recr, vdone, obsw>>
 
 TrCmd ==          \* Torrent.Verify() deletes the stored bitfield first
     /\ Ev.ev = "cmd"
@@ -127,7 +169,7 @@ TrSettled ==      \* allocation / verification of a restarted client settled: th
                ELSE "")
     /\ phase' = "run" /\ vdone' = Ev.verified /\ disk' = ClassOf(Ev) /\ exist' = ExistOf(Ev)
     /\ l' = l + 1
-    /\ UNCHANGED <<cfg, dirty, aidx, almiss, alexist, wr, sec, wok, memKnown, memBit, dbKnown, dbBit, txn, nosync, seen, rmiss, recr, obsw>>
+    /\ UNCHANGED <<cfg, recok, foreignf, dirty, aidx, almiss, alexist, wr, sec, wok, memKnown, memBit, dbKnown, dbBit, txn, nosync, seen, rmiss, recr, obsw>>
 
 TrStats ==
     /\ Ev.ev = "stats"
@@ -167,7 +209,7 @@ TrCrash ==        \* SIGKILL (or graceful close): what the parent found in the d
     /\ phase' = "down" /\ memKnown' = FALSE /\ memBit' = {} /\ aidx' = 0 /\ almiss' = FALSE /\ alexist' = FALSE
     /\ wr' = [p \in Piece |-> "idle"] /\ txn' = NoTxn /\ UNCHANGED <<sec, wok>>
     /\ l' = l + 1
-    /\ UNCHANGED <<cfg, dirty, nosync, seen, rmiss, vdone, obsw>>
+    /\ UNCHANGED <<cfg, recok, foreignf, dirty, nosync, seen, rmiss, vdone, obsw>>
 
 \* the same judgement on a consistent copy of the database taken at a tick of the running client (the data files were read
 \* after the copy was taken; content only accumulates in these lives): every tick is a crash instant
@@ -185,7 +227,7 @@ TrDbSnap ==
                   ELSE "")
           /\ disk' = cls /\ exist' = ex
     /\ l' = l + 1
-    /\ UNCHANGED <<cfg, dirty, phase, aidx, almiss, alexist, wr, sec, wok, memKnown, memBit, dbKnown, dbBit, txn, nosync, seen, rmiss, recr, vdone, obsw>>
+    /\ UNCHANGED <<cfg, recok, foreignf, dirty, phase, aidx, almiss, alexist, wr, sec, wok, memKnown, memBit, dbKnown, dbBit, txn, nosync, seen, rmiss, recr, vdone, obsw>>
 
 \* the process died at the tick of an earlier copy instead: the database file is that copy now
 TrRewind ==
@@ -193,7 +235,7 @@ TrRewind ==
     /\ Note(IF ~Ev.reopen THEN "C05.reopen" ELSE "")
     /\ dbKnown' = Ev.dbknown /\ dbBit' = SetOf(Ev.db) /\ disk' = ClassOf(Ev) /\ exist' = ExistOf(Ev)
     /\ l' = l + 1
-    /\ UNCHANGED <<cfg, dirty, phase, aidx, almiss, alexist, wr, sec, wok, memKnown, memBit, txn, nosync, seen, rmiss, recr, vdone, obsw>>
+    /\ UNCHANGED <<cfg, recok, foreignf, dirty, phase, aidx, almiss, alexist, wr, sec, wok, memKnown, memBit, txn, nosync, seen, rmiss, recr, vdone, obsw>>
 
 \* POST /move-torrent arrives: the record of the source (its bitfield) is what the handler may write
 TrMoveReq ==
@@ -213,19 +255,20 @@ TrDelete ==       \* data files removed while the client is down (DeleteFiles of
     /\ Ev.ev = "delete" /\ phase = "down"
     /\ disk' = ClassOf(Ev) /\ exist' = ExistOf(Ev)
     /\ l' = l + 1
-    /\ UNCHANGED <<cfg, dirty, phase, aidx, almiss, alexist, wr, sec, wok, memKnown, memBit, dbKnown, dbBit, txn, nosync, seen, rmiss, recr, vdone, obsw>>
+    /\ UNCHANGED <<cfg, recok, foreignf, dirty, phase, aidx, almiss, alexist, wr, sec, wok, memKnown, memBit, dbKnown, dbBit, txn, nosync, seen, rmiss, recr, vdone, obsw>>
 
 TrPlant ==        \* data files that exist before the torrent is added (stale / partial / truncated / good copies)
     /\ Ev.ev = "plant" /\ phase = "down"
     /\ disk' = ClassOf(Ev) /\ exist' = ExistOf(Ev)
     /\ l' = l + 1
-    /\ UNCHANGED <<cfg, dirty, phase, aidx, almiss, alexist, wr, sec, wok, memKnown, memBit, dbKnown, dbBit, txn, nosync, seen, rmiss, recr, vdone, obsw>>
+    /\ UNCHANGED <<cfg, recok, foreignf, dirty, phase, aidx, almiss, alexist, wr, sec, wok, memKnown, memBit, dbKnown, dbBit, txn, nosync, seen, rmiss, recr, vdone, obsw>>
 
 TraceNext ==
     /\ l <= Len(Trace)
     /\ \/ TrReset \/ TrUp \/ TrOpen \/ TrOsync \/ TrWBegin \/ TrWEnd \/ TrMem \/ TrCmd \/ TrSettled \/ TrStats
        \/ TrReopenFail \/ TrCrash \/ TrDelete \/ TrPlant
        \/ TrDbSnap \/ TrRewind \/ TrMoveReq \/ TrMoveRes \/ TrAbsent
+       \/ TrReAdd \/ TrDamage \/ TrChown \/ TrAllocFail
 
 TraceSpec == TraceInit /\ [][TraceNext]_tvars
 
